@@ -24,13 +24,14 @@ EXPLANATION = (
     "changes); R-edits-serialised (effect analysis: every attribute an edit changes is written by "
     "to_json from self.<attr>, or rebuilt by the loader); R-single-table (summary and transform read the "
     "per-feature features_dropna flag that a missing-value edit sets, not the constructor's dropna); "
+    "R-leader-position (a renamed group keeps its place in the order); "
     "R-position-truthiness (GroupedList methods never test a position by truthiness: renaming the first group must replace leader 0); "
     "R-comutation (the GroupedList edit helpers keep list and content in step: no member is lost by group / "
     "replace_group_leader); R-default-formula (transform decides 'unknown value' against the live "
     "self.values_orders[feature], the object edits change, not a table filled at fit)."
 )
 NOT_DECIDED = "agreement of transform/summary/JSON after arbitrary edit sequences on data"
-FLOORS = {"R-numeric-only-call": 4, "R-labels-refreshed": 2, "R-mode-first": 1, "R-edit-semantics": 4, "R-append-absent": 2, "R-label-alignment": 2, "R-edits-serialised": 3, "R-single-table": 2, "R-comutation": 6, "R-default-formula": 2, "R-position-truthiness": 1}
+FLOORS = {"R-numeric-only-call": 4, "R-labels-refreshed": 2, "R-mode-first": 1, "R-edit-semantics": 4, "R-append-absent": 2, "R-label-alignment": 2, "R-edits-serialised": 3, "R-single-table": 2, "R-comutation": 6, "R-default-formula": 2, "R-position-truthiness": 1, "R-leader-position": 1}
 
 NUMERIC_ONLY = {"isnan", "isfinite", "isinf", "isneginf", "isposinf"}
 
